@@ -190,6 +190,13 @@ public:
    ///    1.15.0, 17.10.2018
    std::string getAttributeValue( const std::string& attr_name) const;
 
+   /// Returns if the attributes passed to this message define an attribute with
+   /// the given name (possibly with an empty value).
+   ///
+   /// @param[in]  attr_name  The name of the attribute to look for.
+   /// @return  \c true if the attribute is defined for this message.
+   bool hasAttribute( const std::string& attr_name) const;
+
 private:
    /// Time stamp when the log message (i.e., this object) was created.
    std::chrono::system_clock::time_point  mTimestamp;
@@ -344,6 +351,12 @@ inline std::string LogMsg::getAttributeValue( const std::string& attr_name) cons
    return (mpAttributes == nullptr) ? std::string()
       : mpAttributes->getAttribute( attr_name);
 } // LogMsg::getAttributeValue
+
+
+inline bool LogMsg::hasAttribute( const std::string& attr_name) const
+{
+   return (mpAttributes != nullptr) && mpAttributes->hasAttribute( attr_name);
+} // LogMsg::hasAttribute
 
 
 // macros
